@@ -13,8 +13,8 @@ PROP = "C17"
 RULE = ("for each (D,N) EVERY stored wavenumber vector is exercised as a single-mode field with random amplitude and phase (exhaustive over modes), for power/amplitude; random "
         "white-noise states for per-bin sums; distinct = (monitor, D, N, mode class: dc / nyquist / k_last=0 pair / interior / outside-sphere, power?, binning); non-trivial = k != 0")
 EXHAUSTIVE = True
-REQUIRED = {"single_mode_bin": {"quick": 600, "thorough": 4000}, "random_state": {"quick": 80, "thorough": 500}, "parseval": {"quick": 25, "thorough": 150},
-            "channel_independence": {"quick": 15, "thorough": 80}, "average_is_sum_over_count": {"quick": 20, "thorough": 120}}
+REQUIRED = {"single_mode_bin": {"quick": 600, "thorough": 3000}, "random_state": {"quick": 80, "thorough": 250}, "parseval": {"quick": 25, "thorough": 60},
+            "channel_independence": {"quick": 15, "thorough": 60}, "average_is_sum_over_count": {"quick": 20, "thorough": 100}}
 ASSUMPTIONS = ["no integer wavenumber vector has a half-integer norm, so the open/closed side of a bin edge is unobservable and not asserted", "float64"]
 TIMEOUT = {"quick": 900, "thorough": 3000}
 EPS = np.finfo(float).eps
